@@ -40,6 +40,9 @@ ASSUMPTIONS = [
     "log-space arrays the kernel receives",
     "progressive alignment (POG kernel, tree_align) is only exercised: rows degap to inputs, equal length",
     "empty sequences make the aligners raise; recorded in the distribution, not a property violation",
+    "user-model oracle (harness user_hmm): the HMM the caller's score matrix and gap costs denote is rebuilt independently "
+    "(row-normalised exp(-cost), match emission log|alphabet| + Sd[s1 motif, s2 motif]); only the BEGIN distribution mirrors "
+    "cogent3's own definition (row 0 of T^1024); compared under relative tolerance 1e-7",
 ]
 
 TOL = 1e-9
@@ -314,10 +317,12 @@ def user_hmm(moltype, mat, d, e, s1, s2):
         C = numpy.array([[e, numpy.inf, 0.0], [numpy.inf, e, 0.0], [d, d, 0.0]], float)
         T3 = numpy.exp(-C)
         T3 = T3 / T3.sum(axis=1)[:, None]
-        w, v = numpy.linalg.eig(T3.T)
-        k = int(numpy.argmin(abs(w - 1.0)))
-        pi = numpy.real(v[:, k])
-        pi = pi / pi.sum()
+        # BEGIN distribution: cogent3 *defines* it as row 0 of T^(2^10) (maths/markov.py), an approximation of the
+        # stationary distribution that can be ~1e-6 off in log space; it is part of the aligner's own model, so mirrored
+        pw = T3
+        for _ in range(10):
+            pw = numpy.dot(pw, pw)
+        pi = pw[0]
         T = numpy.zeros((5, 5))
         T[1:4, 1:4] = T3
         T[0, 1:4] = pi
